@@ -413,7 +413,18 @@ func (e *Engine) appendOp(fr *frame, s *SliceV, more Value, st types.Type, g *Te
 		case *StrV:
 			src, soff = m.Data, c64(0)
 		}
-		nt := arrCopy(base, s.Len, src, soff, mlen, w)
+		abound := umax(mlen)
+		switch m := more.(type) {
+		case *SliceV:
+			if b := umax(e.sliceArr(m).N); b < abound {
+				abound = b
+			}
+		case *StrV:
+			if uint64(m.Max) < abound {
+				abound = uint64(m.Max)
+			}
+		}
+		nt := arrCopyB(base, s.Len, src, soff, mlen, w, abound)
 		ncap := Ite(Ule(newLen, s.Cap), s.Cap, newLen)
 		o := newObject("append", types.NewArray(elemT, 0), &ArrV{T: nt, N: ncap, EW: w, Signed: sg})
 		return &SliceV{Arr: ptrTo(o), Off: c64(0), Len: newLen, Cap: ncap}
@@ -505,8 +516,20 @@ func (e *Engine) copyOp(fr *frame, dst *SliceV, srcv Value, g *Term, pos token.P
 		case *StrV:
 			src, soff = s.Data, c64(0)
 		}
+		bound := umax(n)
+		if sv, ok := srcv.(*SliceV); ok {
+			if b := umax(e.sliceArr(sv).N); b < bound {
+				bound = b
+			}
+		} else if st, ok := srcv.(*StrV); ok && uint64(st.Max) < bound {
+			bound = uint64(st.Max)
+		}
 		e.updateSliceArr(fr, dst, g, func(old *ArrV) *Term {
-			return arrCopy(old.T, dst.Off, src, soff, n, old.EW)
+			b := bound
+			if ob := umax(old.N); ob < b {
+				b = ob
+			}
+			return arrCopyB(old.T, dst.Off, src, soff, n, old.EW, b)
 		})
 		return n
 	}
